@@ -11,7 +11,7 @@ from ..defs_common import FAM, regen_or_report
 from ..defs_emit_common import (COQ_HEADER, DIFF_NAMES, F, build_corpus, closure_case, closure_files, closure_model_ok, coq_case,
                                 construct_classes, diagnose, names_of_model, observation, read_m, run_emit, source_classes)
 
-THEOREMS = ["C15_total", "C15_total_closure", "C15_total_ex", "C15_scoped_py_partial", "C15_scoped_c_partial",
+THEOREMS = ["C15_total", "C15_total_closure", "C15_total_ex", "C15_total_div_ex", "C15_scoped_py_partial", "C15_scoped_c_partial",
             "C15_scoped_matlab_partial", "C15_scoped_js_partial", "C15_py_registers_every_message",
             "C15_scoped_refuted_alias_of_struct", "C15_scoped_refuted_struct_of_msg", "C15_js_alias_field_ok",
             "C15_matlab_header_only_when_defined", "C15_js_fresh", "C15_js_calls_disjoint", "C15_js_fresh_ex",
@@ -25,6 +25,7 @@ K_JS_FILL = "js:array-fill-shares-element"
 K_M_HDR = "matlab:message-header-without-coredefs"
 K_SCHAR = "internal:signed-char"
 K_ALIAS_FIELD = "internal:field-of-alias-of-struct"
+K_DIV_ZERO = "internal:ZeroDivisionError:constant-expression"
 
 
 def extra_closures(natives: List[str]) -> List[dict]:
@@ -51,6 +52,28 @@ def extra_closures(natives: List[str]) -> List[dict]:
     out.append(dict(tag="struct-order", cl=dict(files=[dict(path="root.yaml", imports=[], items=[
         ("struct", "Zs", F(("x", "int32", None))), ("struct", "Ys", F(("x", "Zs", None))), ("struct", "As", F(("x", "Ys", None), ("y", "Zs", None))),
         ("msg", "M1", 5, F(("x", "As", None)))])], auto_pad=True, import_coredefs=False), coq=True))
+    # constant / length expressions outside the model's grammar: divisors that are not powers of two, division by a
+    # constant, floor division and remainder, float literals (the evaluated length must come out as an int everywhere)
+    out.append(dict(tag="expr-div-inexact", cl=dict(files=[dict(path="root.yaml", imports=[1], items=[
+        ("const", "NAME_LEN", ("lit", 32)), ("const", "THIRD", ("raw", "WINDOW / 3")), ("const", "BACK", ("raw", "THIRD * 3")),
+        ("const", "FL", ("raw", "2.5")), ("const", "PER", ("raw", "NAME_LEN / HALF_WINDOW")), ("const", "FLOORED", ("raw", "WINDOW // 3")),
+        ("struct", "TRACE", F(("subject", "char", ("raw", "NAME_LEN / 2")), ("samples", "int16", ("ref", "HALF_WINDOW")),
+                              ("w", "double", ("raw", "HALF_WINDOW")), ("t", "int8", ("ref", "THIRD")), ("b", "int8", ("ref", "BACK")),
+                              ("f", "uint16", ("raw", "FL * 2")), ("p", "int32", ("ref", "PER")), ("q", "int8", ("raw", "(WINDOW + NAME_LEN) / 7")),
+                              ("r", "int8", ("raw", "WINDOW % 5 + FLOORED")), ("u", "int8", ("raw", "7 / 3 * 3")))),
+        ("msg", "M1", 1500, F(("t", "TRACE", ("raw", "WINDOW / 8")), ("n", "char", ("raw", "NAME_LEN  / 2"))))]),
+        dict(path="base.yaml", imports=[], items=[("const", "WINDOW", ("lit", 16)), ("const", "HALF_WINDOW", ("raw", "WINDOW / 2"))])],
+        auto_pad=True, import_coredefs=False), coq=False))
+    out.append(dict(tag="expr-div-nopad", cl=dict(files=[dict(path="root.yaml", imports=[], items=[
+        ("const", "W", ("lit", 16)), ("const", "H", ("div", ("ref", "W"), 2)),
+        ("struct", "S1", F(("a", "double", ("ref", "H")), ("b", "int64", ("div", ("ref", "H"), 4)), ("c", "uint64", ("div", ("lit", 5), 2))))])],
+        auto_pad=False, import_coredefs=False), coq=True))
+    # a division by zero in a constant expression: ZeroDivisionError out of eval(), not a ParserError (recorded finding)
+    out.append(dict(tag="expr-div-by-zero", cl=dict(files=[dict(path="root.yaml", imports=[], items=[
+        ("const", "N", ("lit", 4)), ("const", "Z", ("lit", 0)), ("const", "BAD", ("raw", "N / Z")),
+        ("struct", "S1", F(("a", "int8", ("ref", "N"))))])], auto_pad=True, import_coredefs=False), coq=False))
+    out.append(dict(tag="expr-div-by-zero-length", cl=dict(files=[dict(path="root.yaml", imports=[], items=[
+        ("const", "N", ("lit", 4)), ("struct", "S1", F(("a", "int8", ("raw", "N / 0"))))])], auto_pad=True, import_coredefs=False), coq=False))
     out.append(dict(tag="constant-named-like-field", cl=dict(files=[dict(path="root.yaml", imports=[], items=[
         ("const", "count", ("lit", 3)), ("struct", "S1", F(("count", "int32", None), ("b", "int32", ("ref", "count")))),
         ("struct", "RTMA_MSG_HEADER", F(("msg_type", "int32", None)))])], auto_pad=True, import_coredefs=False), coq=False))
@@ -88,8 +111,8 @@ def load_oracle(c: dict, res: dict, obs) -> List[tuple]:
     if res["compile_exc"]:
         if "signed-char" in cs:
             out.append((K_SCHAR, "compile() raised in a back end: " + res["compile_exc"][:150]))
-        else:
-            out.append(("emit:" + res["compile_exc"].split(":")[0], "compile() raised in a back end: " + res["compile_exc"][:200]))
+        else:   # compile() raising anything at all after the parser accepted the closure is an internal error
+            out.append(("internal:" + res["compile_exc"].split(":")[0] + ":emit", "compile() raised in a back end: " + res["compile_exc"][:200]))
         return out
 
     def explain(name: str, lang: str, what: str):
@@ -178,8 +201,9 @@ def load_oracle(c: dict, res: dict, obs) -> List[tuple]:
 
 def run(chk: Check):
     rng = random.Random(chk.seed + 15)
-    if not regen_or_report(chk):
-        return
+    # a translator that fails closed is reported (broken obligation); the implementation is still run against the
+    # spec oracle and the (last generated) model, so that a behavioural change comes with a concrete failing input
+    regen_or_report(chk)
     chk.prove(FAM, "Props.C15", THEOREMS)
     from ..translate import tables as T
     allnat = [k for k, _, _, _ in T.parser_supported_types()]
@@ -209,8 +233,12 @@ def run(chk: Check):
                     key = K_SCHAR
                 elif res["exc"] == "TypeError" and "must be a C type" in res["msg"] and _has_alias_struct_field(c["cl"]):
                     key = K_ALIAS_FIELD
+                elif res["exc"] == "ZeroDivisionError" and _divides_by_zero(c["cl"]):
+                    key = K_DIV_ZERO
                 else:
-                    key = "internal:" + str(res["exc"])
+                    # any exception that is not one of the project's ParserError family (nor the two user-facing asserts /
+                    # a missing file) is an internal error; <where> = the parser (the back ends: `...:emit`)
+                    key = "internal:" + str(res["exc"]) + ":parse"
                 chk.spec_failure(key, f"compile ends in an internal error {res['exc']}: {res['msg'][:160]}", replay)
         else:
             dist["accepted"] = dist.get("accepted", 0) + 1
@@ -262,6 +290,30 @@ def run(chk: Check):
                                   f"case tag={c['tag']} files={json.dumps(closure_files(c['cl']))[:500]}")
         if any(b < 0 for b in bad):
             chk.broken_obligation("correspondence shard failed to evaluate", log[-600:])
+
+
+def _divides_by_zero(cl: dict) -> bool:
+    """a constant or length expression of the source divides by a literal 0 or by a constant whose value is 0"""
+    zero = set()
+    for f in cl["files"]:
+        for it in f["items"]:
+            if it[0] == "const" and it[2][0] == "lit" and it[2][1] == 0:
+                zero.add(it[1])
+    pat = re.compile(r"(/|//|%)\s*(0\b(?!\.)|" + "|".join(re.escape(z) + r"\b" for z in sorted(zero)) + ")") if zero \
+        else re.compile(r"(/|//|%)\s*0\b(?!\.)")
+    for f in cl["files"]:
+        for it in f["items"]:
+            es = []
+            if it[0] == "const":
+                es.append(it[2])
+            if it[0] in ("struct", "msg"):
+                b = it[2] if it[0] == "struct" else it[3]
+                if b and b[0] == "fields":
+                    es += [ln for _, _, ln in b[1] if ln is not None]
+            for e in es:
+                if e[0] == "raw" and pat.search(e[1]):
+                    return True
+    return False
 
 
 def _has_alias_struct_field(cl: dict) -> bool:
